@@ -59,6 +59,11 @@ def family(W: PipeWorld):
     add("inner(grad(u), grad(u))", cm["Inner"](W.grad(u), W.grad(u)))
     add("u[i]*grad(f)[i] (index notation)", um.m_index_sum(um.m_product(idx(u, i), idx(W.grad(f), i)), MI((i,))))
     add("dot(p, grad(f))   (covariant Piola p)", cm["Dot"](p, W.grad(f)))
+    # Kronecker deltas in the integrand itself (double contraction: the trace of the identity is the dimension)
+    I2 = cm["Identity"](2)
+    fI = um.m_component_tensor(um.m_product(f, idx(I2, i, j)), MI((i, j)))
+    add("inner(f*I, I)   (= 2 f)", cm["Inner"](fI, I2))
+    add("div(q)*I[i,j]*I[i,j]", um.m_product(div(q), um.m_index_sum(um.m_index_sum(um.m_product(idx(I2, i, j), idx(I2, i, j)), MI((j,))), MI((i,)))))
     return E
 
 
